@@ -151,6 +151,11 @@ func (sb *switchboard) closeAll() {
 	if !atomic.CompareAndSwapUint32(&sb.broken, 0, 1) {
 		return
 	}
+	// Adders are kept out while the count is reset and the table is swept: a connection added in between
+	// took id 0 again and displaced the connection stored there before the sweep had reached it, so that
+	// one was never closed
+	sb.addConnM.Lock()
+	defer sb.addConnM.Unlock()
 	atomic.StoreUint32(&sb.connsCount, 0)
 	sb.conns.Range(func(_, conn interface{}) bool {
 		conn.(net.Conn).Close()
